@@ -144,7 +144,7 @@ def catalogue():
     if MODNAME not in sys.modules:
         m = types.ModuleType(MODNAME)
         sys.modules[MODNAME] = m
-        exec(compile(SRC, f"/verif/out/generated/{MODNAME}.py", "exec"), m.__dict__)
+        exec(compile(SRC, f"/verif/out/generated/{MODNAME}.py", "exec", dont_inherit=True), m.__dict__)
     m = sys.modules[MODNAME]
     classes = [int, bool, float, str, bytes, bytearray, memoryview, list, tuple, set, frozenset, dict, type(None), complex, object, type, range,
                decimal.Decimal, fractions.Fraction, uuid.UUID, pathlib.Path, pathlib.PurePath, pathlib.PurePosixPath, pathlib.PureWindowsPath,
